@@ -1,5 +1,4 @@
 import json
-import string
 from typing import Any
 
 from flamapy.core.models.ast import Node, ASTOperation
@@ -73,7 +72,7 @@ def _get_features_info(features: list[Feature]) -> dict[str, Any]:
 
 def _get_tree_info(feature: Feature) -> dict[str, Any]:
     feature_info: dict[str, Any] = {}
-    feature_info["id"] = safename(feature.name)
+    feature_info["id"] = feature.name
     children = [
         _get_tree_info(child)
         for child in sorted(feature.get_children(), key=lambda f: f.name)
@@ -94,7 +93,7 @@ def _get_ctc_info(ast_node: Node) -> dict[str, Any]:
     ctc_info: dict[str, Any] = {}
     if ast_node.is_term():
         ctc_info["type"] = "FeatureTerm"
-        ctc_info["operands"] = [safename(str(ast_node.data))]
+        ctc_info["operands"] = [str(ast_node.data)]
     else:
         ctc_info["type"] = GlencoeWriter.CTC_TYPES[ast_node.data]
         operands = []
@@ -106,10 +105,3 @@ def _get_ctc_info(ast_node: Node) -> dict[str, Any]:
         ctc_info["operands"] = operands
     return ctc_info
 
-
-def safename(name: str) -> str:
-    return f'"{name}"' if any(char not in safecharacters() for char in name) else name
-
-
-def safecharacters() -> str:
-    return string.ascii_letters + string.digits + '_'
